@@ -75,8 +75,8 @@ def search(ctx):
 
 SPEC = {
     "id": "C14",
-    "gens": ["SourceMapTables", "LexTables"],
-    "lean_modules": ["RsslVerif.Thm.C14"],
+    "gens": ["SourceMapTables", "LexTables", "MacroTables"],
+    "lean_modules": ["RsslVerif.Thm.C14", "RsslVerif.Thm.C12Boundary"],
     "theorems": [T + n for n in [
         "tables_as_modelled", "insert_shift", "line_shift", "line_shift_before", "inline_trivia_shift",
         "lineCol_injective", "lineCol_bounds", "applyEdits_tracks", "include_location", "include_independent_of_includer",
@@ -88,7 +88,11 @@ SPEC = {
         "trivia_insensitive_if", "trivia_insensitive_rejected_if", "trivia_lexers_as_modelled",
         "trivia_insensitive_lexer", "trivia_insensitive_lexer_rejected", "lexer_failure_moves",
         "lexer_side_conditions_needed", "preprocess_trivia_insensitive_partial",
-        "commandline_defines_as_modelled", "commandline_defines_location"]] + [
+        "commandline_defines_as_modelled", "commandline_defines_location",
+        "macro_resume_as_modelled", "skipAllWs_ws", "scanFrom_skip", "resume_at_region_start_finds_trailing_name",
+        "resume_at_region_end_linebreak_witness"]] + [
+        # C12's theorem on higher-order invocations (what C14 takes from it: Thm/C14.lean, Part 3b)
+        "RsslVerif.Thm.C12.agrees_on_higher_order_invocation",
         # the lemma the lexer theorem rests on (Lemmas/LexStableTok.lean) and the three facts about the concrete lexer
         "RsslVerif.Lemmas.LexStable.tokenIntermediate_stable", "RsslVerif.Lemmas.TriviaLexer.triviaText_lexesAs",
         "RsslVerif.Lemmas.TriviaLexer.adjacent", "RsslVerif.Lemmas.TriviaLexer.distant"],
